@@ -22,8 +22,8 @@ type c05Script struct {
 type c05Srv struct {
 	mu     sync.Mutex
 	calls  [][4]string
-	script c05Script                 // sequential phase
-	byUser map[string]c05Script      // concurrent phase
+	script c05Script            // sequential phase
+	byUser map[string]c05Script // concurrent phase
 }
 
 func (s *c05Srv) cb(login, password, service, realm string) (bool, string, error) {
